@@ -1,7 +1,7 @@
 (* C28 — mount namespace updates transform the current mounts into the desired ones.
    This file holds the property theorems only: statement, `exact <lemma>`, Print Assumptions.
    Models: models/MountEntry.v (osutil mount entry codec) and models/MountNS.v (cmd/snap-update-ns neededChanges). *)
-From Coq Require Import List NArith ZArith Bool String.
+From Coq Require Import List NArith ZArith Bool String Permutation.
 Import ListNotations.
 Require Import V.lib.Bytes V.models.MountEntry V.proofs.MountEntryProofs V.models.MountNS V.proofs.MountNSProofs.
 
@@ -69,37 +69,69 @@ Proof. reflexivity. Qed.
      reusable des ids c   c is a rootfs entry, or a synthetic entry whose needed-by id is desired, or identical to the
                           desired entry for its mount point
      beneath c p          c's directory starts with p's directory plus a slash
-   FULL STATEMENT of the property's first sentence: under distinct desired mount points, distinct (dir, type) in the
-   current profile and no desired entry on the (dir, type) of a different helper entry, apply_changes cur
-   (needed_changes fs current desired) = Some tbl with tbl a permutation of des ++ the kept helper entries.
-   PROVED here (C28_result_profile_*_partial): the membership form - every desired entry is mounted or kept, only
-   desired entries are mounted, only desired entries and still-needed helpers are kept. MISSING: that the change
-   list applies step by step to the table (apply_changes <> None) and multiplicities (no entry twice); both are
-   evaluated by the monitor on every observed change list of the real code. *)
+     is_helper ids c      c is a rootfs entry or a synthetic entry whose needed-by id is desired *)
 
-Theorem C28_result_profile_desired_present_partial : forall fs current desired,
+(* Applying the computed change list to the current mount table succeeds step by step (every Keep finds its entry,
+   every Unmount removes exactly the entry it was made from, Mounts append), and the table afterwards is - as a
+   multiset, i.e. with multiplicities - the desired entries plus `extra`, where every extra entry is an entry of the
+   current profile that was kept and is a helper still supporting a desired entry (or the rootfs).
+   Hypotheses: pairwise different cleaned desired mount points; pairwise different (dir, type) in the current profile;
+   no desired entry on the (dir, type) of a DIFFERENT helper entry of the current profile. *)
+Theorem C28_result_profile : forall fs current desired,
   let cur := map clean_entry current in
   let des := isort less_origin (map clean_entry desired) in
   let ids := map x_entry_id des in
-  NoDup (map e_dir des) -> forall d, In d des ->
-  (forall c, In c cur -> is_helper ids c = true -> id_of c = id_of d -> c = d) ->
-  In (Mount, d) (needed_changes fs current desired) \/ In (Keep, d) (needed_changes fs current desired).
-Proof. exact desired_present. Qed.
-Print Assumptions C28_result_profile_desired_present_partial.
+  NoDup (map e_dir des) -> NoDup (map id_of cur) ->
+  (forall d c, In d des -> In c cur -> is_helper ids c = true -> id_of c = id_of d -> c = d) ->
+  exists tbl extra,
+    apply_changes cur (needed_changes fs current desired) = Some tbl /\
+    Permutation tbl (des ++ extra) /\
+    (forall x, In x extra -> In x cur /\ is_helper ids x = true /\ In (Keep, x) (needed_changes fs current desired)).
+Proof. exact result_profile. Qed.
+Print Assumptions C28_result_profile.
 
-Theorem C28_result_profile_mounted_are_desired_partial : forall fs current desired x,
+(* ... and the third hypothesis cannot be dropped: reuse is keyed by (dir, type) only, so a desired tmpfs on the
+   directory of a still-needed writable mimic (a synthetic tmpfs) is neither mounted nor kept. Reachable on the real
+   code through update histories (KNOWN_FINDINGS key desired-shadowed-by-helper; the scripted witness history is in
+   the driver and is replayed on the implementation on every run). *)
+Theorem C28_result_profile_shadowed_refuted :
+  exists fs current desired d,
+    NoDup (map e_dir (isort less_origin (map clean_entry desired))) /\
+    NoDup (map id_of (map clean_entry current)) /\
+    In d (isort less_origin (map clean_entry desired)) /\
+    ~ In (Mount, d) (needed_changes fs current desired) /\ ~ In (Keep, d) (needed_changes fs current desired).
+Proof. exact result_profile_shadowed_refuted. Qed.
+Print Assumptions C28_result_profile_shadowed_refuted.
+
+(* the closed form of the table, and supporting facts that need fewer hypotheses *)
+Theorem C28_apply_changes : forall fs current desired,
+  let cur := map clean_entry current in
+  let des := isort less_origin (map clean_entry desired) in
+  let reuse := reuse_of current desired in
+  NoDup (map id_of cur) ->
+  apply_changes cur (needed_changes fs current desired) =
+  Some (filter (fun e => id_mem (id_of e) reuse) cur ++
+        mount_order fs (filter (fun e => negb (id_mem (id_of e) reuse)) des)).
+Proof. exact apply_needed_changes. Qed.
+Print Assumptions C28_apply_changes.
+
+Theorem C28_mount_list_is_permutation : forall fs dnr, Permutation (mount_order fs dnr) dnr.
+Proof. exact mount_order_perm. Qed.
+Print Assumptions C28_mount_list_is_permutation.
+
+Theorem C28_mounted_are_desired : forall fs current desired x,
   In (Mount, x) (needed_changes fs current desired) -> In x (isort less_origin (map clean_entry desired)).
 Proof. exact mounted_are_desired. Qed.
-Print Assumptions C28_result_profile_mounted_are_desired_partial.
+Print Assumptions C28_mounted_are_desired.
 
-Theorem C28_result_profile_kept_are_wanted_partial : forall fs current desired,
+Theorem C28_kept_are_wanted : forall fs current desired,
   let cur := map clean_entry current in
   let des := isort less_origin (map clean_entry desired) in
   let ids := map x_entry_id des in
   NoDup (map id_of cur) ->
   forall x, In (Keep, x) (needed_changes fs current desired) -> In x cur /\ (In x des \/ is_helper ids x = true).
 Proof. exact kept_are_wanted. Qed.
-Print Assumptions C28_result_profile_kept_are_wanted_partial.
+Print Assumptions C28_kept_are_wanted.
 
 (* every unchanged entry (more generally: every reusable one) that is not beneath a changed one is kept in place, not
    remounted; an entry identical to a desired one is reusable when the desired mount points are distinct *)
